@@ -1,4 +1,5 @@
 import Proofs.ExtractScript
+import Proofs.XsdFuel
 import PyxModel.Extract.Xsd
 
 /-!
@@ -8,11 +9,16 @@ import PyxModel.Extract.Xsd
 
 namespace Pyx.Extract
 
-/-- well-formedness needed for the XSD edits: C14's, plus unique DT_IDs and data type names -/
+/-- well-formedness needed for the XSD theorems: C14's, unique DT_IDs and data type names, acyclic containment and
+    acyclic user-type chains (where Python would not terminate) -/
 structure XWF (d : ClassDiagram) : Prop where
   wf : WF d
   dtIds : (d.dts.map (·.id)).Nodup
   dtNames : (d.dts.map (·.name)).Nodup
+  /-- acyclic containment: the fuel of `is_contained_in` / `is_global` is never exhausted -/
+  tree : TreeOk d.containers
+  /-- acyclic user-type chains: the fuel of the `while S_UDT` loop is never exhausted -/
+  chain : DtChainOk d.dts
 
 theorem xattr_name {d : ClassDiagram} {x : Attr} {s : XAttr} (h : xattr d x = some s) : s.name = x.name := by
   unfold xattr at h
